@@ -1234,6 +1234,7 @@ func (w *World) run() {
 		return
 	}
 	var cancels []context.CancelFunc
+	var rt2 http.RoundTripper // second transport on the same store, opened on first use
 	for si, st := range sc.Steps {
 		switch st.Op {
 		case "sleep":
@@ -1252,10 +1253,21 @@ func (w *World) run() {
 				obs.Fatal = err.Error()
 				return
 			}
+			rt2 = nil
 		case "corrupt":
 			w.corrupt(st.Corrupt)
 		case "req":
-			c := w.doReq(rt, si, st.Req)
+			use := rt
+			if st.Req.Via2 {
+				if rt2 == nil {
+					if rt2, err = w.newTransport(); err != nil {
+						obs.Fatal = err.Error()
+						return
+					}
+				}
+				use = rt2
+			}
+			c := w.doReq(use, si, st.Req)
 			if c != nil {
 				cancels = append(cancels, c)
 			}
